@@ -259,6 +259,9 @@ def build():
     VB = 'old(self).val(b)'
     ds.requires('allocated', 'old(self).has(x) && old(self).has(b) && old(self).has(t) && old(self).has(s)')
     ds.requires('x_is_the_select_of_its_recorded_source', f'({VB} == F::fone() ==> old(self).val(x) == old(self).val(t)) && ({VB} == F::fzero() ==> old(self).val(x) == old(self).val(s))')
+    # termination of the recursion through the branches: `connect` merges select provenance, so the record of x can lead back to x; the record must be out while a branch is decomposed (fix F35)
+    ds.requires('x_has_the_recorded_select_source', 'old(self).ext_select_sources.keys@.contains(x)')
+    ds.rewrite_re('SPEC', r'(let t_coeffs = )', r'proof { assert(!self.ext_select_sources.keys@.contains(x)); } // @@A:the_select_record_of_x_is_out_while_its_branches_are_decomposed\n                \1', min_count=0)
     ds.requires('one_branch_has_provenance', 'old(self).prov_of(t) is Some || old(self).prov_of(s) is Some')
     ds.ensures('frame', 'ret matches Ok(c) ==> final(self).extends(old(self)) && c@.len() == sp_dimension::<F>() && final(self).has_all(c@)')
     # the coefficient-wise shortcut x_i = select(b, t_i, s_i) is the decomposition of x = s + b(t - s) only for a BASE-FIELD selector; `select` accepts any selector and nothing at this site checks it
